@@ -17,6 +17,7 @@ import FontcProofs.Rounding
 import FontcProofs.VarModelAlg
 import FontcProofs.VarModelSort
 import FontcProofs.VarModelTri
+import FontcProofs.VarModelGeom
 
 namespace Fontc.C07
 open Fontc Fontc.VarModel
@@ -65,6 +66,27 @@ theorem deltas_reproduce_rounding (n : Nat) (locs : List Loc)
     ratAbs (interpolate M.influence (M.deltas rb.apply vals) loc - v) ≤ 1/2 :=
   deltas_reproduce_rounded n locs hlen hnd M hM rb.apply (Rounding.apply_abs_le rb) vals hvals
     m loc v hloc hv
+
+/-- Every region of the model is well-formed: min ≤ peak ≤ max, inside [-1,1] (given that the master
+    coordinates are), and never spans zero. -/
+theorem regions_valid (n : Nat) (locs : List Loc)
+    (hlen : ∀ l ∈ locs, l.length = n) (hnd : locs.Pairwise (· ≠ ·))
+    (hrange : ∀ l ∈ locs, ∀ x ∈ l, -1 ≤ x ∧ x ≤ 1)
+    (M : Model) (hM : M = Model.new n locs) :
+    ∀ r ∈ M.influence, ∀ t ∈ r, t.wellFormed = true := by
+  subst hM
+  rw [Model.new_eq n locs hlen hnd]
+  intro r hr t ht
+  have hperm := sortLocs_perm locs
+  have hlen' : ∀ l ∈ sortLocs locs, l.length = n := fun l hl => hlen l (hperm.mem_iff.1 hl)
+  have hrange' : ∀ l ∈ sortLocs locs, ∀ x ∈ l, -1 ≤ x ∧ x ≤ 1 := fun l hl => hrange l (hperm.mem_iff.1 hl)
+  exact (masterInfluence_tents_valid hlen' r hr t ht).2 hrange'
+
+/-- Every region scalar lies in [0,1], at every location whatsoever. -/
+theorem scalars_in_unit_interval (n : Nat) (locs : List Loc) (M : Model) (hM : M = Model.new n locs)
+    (r : Region) (hr : r ∈ M.influence) (p : Loc) : 0 ≤ scalarAt r p ∧ scalarAt r p ≤ 1 := by
+  subst hM
+  exact masterInfluence_scalar_unit _ r hr p
 
 /-- The default (all-zero) location is the first location of the model, and the value reproduced
     there is exactly `round v₀`, whatever the other masters are. -/
